@@ -68,6 +68,12 @@ FAULTS = [
     Fault("unused-division-by-zero", "arithmetic-error", E, "ua§ = 1 + [[10]]/uy§", pre=["uy§ = uf§"], post=["uf§ = 0"], where="top"),
     Fault("unused-undefined", "undefined-symbol", E, "uu§ = 1 + [[nosuch§]]", where="top", phase="link"),
     Fault("unused-chain-division", "arithmetic-error", E, "uc§ = [[10]]/0", pre=["ub§ = uc§ + 1"], where="top"),
+    # a fault attributed to the whole displacement expression of an indexed operand (pdpy11 regroups 'a op b(rN)' into '(a op b)(rN)')
+    Fault("index-division-by-zero", "arithmetic-error", E, "\tclr [[ix§]]/0(r1)", pre=["ix§ = 4"], where="top"),
+    Fault("index-division-second-operand", "arithmetic-error", E, "\tmov r0, [[iy§]]/0(r1)", pre=["iy§ = 4"], where="top"),
+    Fault("index-sum-out-of-range", "value-out-of-bounds", E, "\tclr [[100000]]+100000(r2)"),
+    Fault("index-negative-shift", "arithmetic-error", E, "\tclr @[[4]] << -1(r3)"),
+    Fault("index-negated-out-of-range", "value-out-of-bounds", E, "\tclr [[-]]ib§(r5)", pre=["ib§ = 200000"], where="top"),
     # chains: the diagnostic is placed at an infix token whose left operand was itself folded from several terms
     Fault("division-chain", "arithmetic-error", E, "\t.word [[6]] * 2 / 0"),
     Fault("division-chain-sub", "arithmetic-error", E, "\t.word [[10]] / 2 / 0"),
@@ -128,6 +134,11 @@ FAULTS = [
     Fault("nothing-after-comma", "invalid-operand", C, "\tmov r1[[,]] )", phase="parse"),
     Fault("nothing-after-equals", "invalid-assignment", C, "xq§ [[=]] )", where="top", phase="parse"),
     Fault("prefix-after-infix", "invalid-expression", C, "\t.word 2 *[[]]~3", phase="parse"),
+    # a dangling infix operator: blanks, tabs, a comment and a line break between the operator and the token in the operand's place
+    Fault("dangling-operator", "invalid-expression", C, "\t.word 3 * [[,]] 5", phase="parse"),
+    Fault("dangling-operator-tab", "invalid-expression", C, "\tmov #<1 &\t[[>]], r0", phase="parse"),
+    Fault("dangling-operator-bracket", "invalid-expression", C, "dv§ = (2 /  [[)]]", phase="parse", where="top"),
+    Fault("dangling-operator-next-line", "invalid-expression", C, "\t.word 3 *\t; comment\n\t\t[[,]] 5", phase="parse"),
 ]
 
 WARNINGS = [
